@@ -257,8 +257,37 @@ TYPED = [
 ]
 
 
+# an iterator is an ordinary function value: it may call itself by its declared name, declare names of its own, and the
+# caller may use any names (also the ones the built-in operators use internally).  x1..xn here are 2, 4 (REC) resp. 1, 2 (DECL).
+REC = ("mk := () -> () -> (bool, int) { n := mut 0; gen := () -> (bool, int) { n += 1; if *n % 2 == 1 { return gen() } "
+       "return (*n < 6, *n) } return gen }; ")
+DECL = ("x := mut 7; value := 70; res := 71; con := 72; iterator := 73; func := 74; k := mut 0; "
+        "it := () -> (bool, int) { x := mut 0; value := 1; res := 2; con := 3; k += 1; return (*k < 3, *k) }; ")
+_AFTER = "(r, *x, value, res, con, iterator, func)"
+_KEPT = (7, 70, 71, 72, 73, 74)
+SCOPED = [
+    (REC + "it := mk(); r := it $]; r", [2, 4]), (REC + "it := mk(); r := it $+; r", 6), (REC + "it := mk(); r := it $*; r", 8),
+    (REC + "it := mk(); r := it $0 (a: int, b: int) -> int { return a * 10 + b }; r", 24),
+    (REC + "it := mk(); r := it \\ (v: int) -> bool { return v > 2 }; r", ([4], [2])),
+    (REC + "it := mk(); r := it @ (v: int) -> int { return v + 1 } $]; r", [3, 5]),
+    (REC + "it := mk(); r := it ? (v: int) -> bool { return v > 2 } $]; r", [4]),
+    (REC + "it := mk(); r := it ? int $]; r", [2, 4]), (REC + "it := mk(); r := it $&; r", 0), (REC + "it := mk(); r := it $|; r", 6),
+    (REC + "it := mk(); r := it @ (v: int) -> bool { return v > 0 } $&&; r", True),
+    (REC + "it := mk(); s := mut 0; for v in it { s += v } *s", 6), (REC + "it := mk(); (it(), it(), it().0)", ((True, 2), (True, 4), False)),
+    (REC + "f := () -> any { it := mk(); return it $] }; f()", [2, 4]),
+]
+for _t, _v in [("it $]", [1, 2]), ("it $+", 3), ("it $0 (a: int, b: int) -> int { return a * 10 + b }", 12),
+               ("it \\ (v: int) -> bool { return v > 1 }", ([2], [1])), ("it @ (v: int) -> int { return v + 1 } $]", [2, 3]),
+               ("it ? (v: int) -> bool { return v > 1 } $]", [2]), ("it ? int $]", [1, 2]), ("it $*", 2), ("it $|", 3)]:
+    SCOPED.append((DECL + f"r := {_t}; " + _AFTER, (_v,) + _KEPT))
+    SCOPED.append(("main := () -> any { " + DECL + f"r := {_t}; return " + _AFTER + " }; main()", (_v,) + _KEPT))
+SCOPED.append((DECL + "s := mut 0; for v in it { s += v } r := *s; " + _AFTER, (3,) + _KEPT))
+
+
 def fam_iter(tier, seed, extra=()):
     out = []
+    for k, (prog, exp) in enumerate(SCOPED):
+        out.append(Case(f"it/scoped{k}", prog, exp, what="iterator that calls itself by name / declares names; caller's names survive"))
     for k, (xs, stages, term) in enumerate(FIXED):
         out += _cases_for(f"fixed{k}", xs, stages, term)
     for k, (prog, exp) in enumerate(TYPED):
